@@ -47,7 +47,118 @@ Example C12_example : (* two histories of different length and breaker state end
   = s_outputs (run s0 [Supply (mk 2%nat 500); Balance]).
 Proof. vm_compute. reflexivity. Qed.
 
+
+(* ------------------------------------------------------------------------------------------------
+   The same property over the FIELD-LEVEL state machines of Model/Machine.v, where setters write one
+   field of one component, a balance writes back into input fields (the input of balancing PTI/PTO and
+   storage units; the engines' statuses; the PTI/PTO shaft power in full-PTI steps) and nothing is
+   ever reset.  Here the statements are not immediate: they say which fields a calculation reads. *)
+From Feems Require Import Model.Shaft Model.Machine Proofs.MachineProofs.
+
+(* electric system: a balance reads the static plant, the breaker matrix and, per component, status,
+   sharing mode and -- for consumers and for PTI/PTO / storage units that do not balance over the
+   whole series -- the input; no power_output, no source input, no input that validation resets *)
+Theorem C12_electric_reads_only conv s1 s2 : Forall2 reads_same (e_comps s1) (e_comps s2) ->
+  e_edges s1 = e_edges s2 -> e_swbs s1 = e_swbs s2 -> e_sts s1 = e_sts s2 ->
+  option_map eobs (ebalance conv s1) = option_map eobs (ebalance conv s2).
+Proof. apply ebalance_reads. Qed.
+
+(* whatever two objects of one plant went through (any operation lists h1, h2, including earlier
+   balances on other series lengths), a complete supply followed by a balance gives the same
+   observation -- or is rejected on both *)
+Theorem C12_electric_history_free conv s1 s2 h1 h2 s1' s2' l sts :
+  same_eplant s1 s2 -> erun conv s1 h1 = Some s1' -> erun conv s2 h2 = Some s2' ->
+  length l = length (e_comps s1) ->
+  supply_ok (map (fun m => c_kind (m_c m)) (e_comps s1)) l ->
+  option_map eobs (erun conv s1' (supply l sts ++ [EBalance])) = option_map eobs (erun conv s2' (supply l sts ++ [EBalance])).
+Proof. apply e_history_free. Qed.
+
+(* the input a PTI/PTO or storage unit holds at a step where it balances -- e.g. what the previous
+   balance wrote there -- is not read: objects that differ only there (and in outputs) calculate alike *)
+Theorem C12_stale_balancing_input_masked conv
+  (conv_proper : forall j a b, num_eqv a b -> num_eqv (conv j a) (conv j b)) s1 s2 :
+  Forall2 meqv (e_comps s1) (e_comps s2) ->
+  e_edges s1 = e_edges s2 -> e_swbs s1 = e_swbs s2 -> e_sts s1 = e_sts s2 ->
+  match ebalance conv s1, ebalance conv s2 with
+  | Some a, Some b => obs_eqv (eobs a) (eobs b)
+  | None, None => True
+  | _, _ => False
+  end.
+Proof. apply ebalance_masked, conv_proper. Qed.
+
+(* repeating the calculation on the object as the first calculation left it gives the same results
+   (premise: the first one's balancing inputs are finite, i.e. C01's capacity premise held) *)
+Theorem C12_electric_repeatable conv
+  (conv_proper : forall j a b, num_eqv a b -> num_eqv (conv j a) (conv j b)) s s' :
+  ebalance conv s = Some s' -> forallb ps_fin (e_comps s') = true ->
+  match ebalance conv s' with Some s'' => obs_eqv (eobs s') (eobs s'') | None => False end.
+Proof. apply e_repeatable, conv_proper. Qed.
+
+(* shaft line: the status write-back and the full-PTI overwrite do not change a repeated balance *)
+Theorem C12_shaft_repeatable to_elec s :
+  map g_status (l_engs (lbalance to_elec (lbalance to_elec s))) = map g_status (l_engs (lbalance to_elec s)) /\
+  l_machine (lbalance to_elec (lbalance to_elec s)) = l_machine (lbalance to_elec s) /\
+  Forall2 (Forall2 Qeq) (map g_pout (l_engs (lbalance to_elec (lbalance to_elec s)))) (map g_pout (l_engs (lbalance to_elec s))).
+Proof. apply l_repeatable. Qed.
+
+Theorem C12_shaft_reads_only to_elec s1 s2 : lreads_same s1 s2 -> lobs (lbalance to_elec s1) = lobs (lbalance to_elec s2).
+Proof. apply lbalance_reads. Qed.
+
+Theorem C12_shaft_history_free to_elec s1 s2 h1 h2 loads sts shaft full :
+  same_lplant (lrun to_elec s1 h1) (lrun to_elec s2 h2) ->
+  length loads = length (l_lds (lrun to_elec s1 h1)) -> length sts = length (l_engs (lrun to_elec s1 h1)) ->
+  lobs (lrun to_elec (lrun to_elec s1 h1) (lsupply loads sts shaft full ++ [LBalance]))
+  = lobs (lrun to_elec (lrun to_elec s2 h2) (lsupply loads sts shaft full ++ [LBalance])).
+Proof. apply l_history_free. Qed.
+
+(* "supplied afresh" must include the engine statuses: after a run with zero load the balance has
+   switched the engines off, and a later run that re-supplies only the load finds no engine running
+   (this is why the front end re-applies statuses before every run) *)
+Example C12_engine_status_must_be_resupplied :
+  let s0 := {| l_lds := [[0; 0]]; l_machine := None;
+               l_engs := [{| g_rated := 1000; g_status := [true; true]; g_pout := [] |}] |} in
+  let te := fun x : Q => x in
+  map g_pout (l_engs (lrun te s0 [LBalance; LSetLoad 0 [500; 500]; LBalance])) = [[0; 0]] /\
+  map (fun g => map Qred (g_pout g)) (l_engs (lrun te s0 [LBalance; LSetLoad 0 [500; 500]; LSetEngineStatus 0 [true; true]; LBalance]))
+  = [[500; 500]].
+Proof. vm_compute. split; reflexivity. Qed.
+
+(* Non-vacuity of the electric statements: a genset and a battery that balances at step 0 and follows
+   a set-point at step 1 (mixed mode: validation does not reset its input).  First history: another
+   calculation with other loads and another length came first, and the battery's input at step 0 was
+   NOT re-supplied (it holds what the earlier balance wrote).  Second history: fresh object. *)
+Definition ex_conv (j : nat) (x : num) : num := x.
+Definition ex_m (k : kind) (r : Q) : mcomp :=
+  {| m_c := {| c_swb := 1; c_kind := k; c_rated := r |}; m_status := []; m_lsm := []; m_pin := []; m_pout := [] |}.
+Definition ex_s0 : estate :=
+  {| e_comps := [ex_m Source 1000; ex_m Storage 500; ex_m Consumer 2000]; e_edges := []; e_swbs := [1%nat]; e_sts := [] |}.
+Definition ex_first : list eop :=
+  [ESetStatus 0 [true; true; true]; ESetLsm 0 [0; 0; 0]; ESetStatus 1 [true; true; true]; ESetLsm 1 [0; 1; 0];
+   ESetPin 1 [0; 100; 0]; ESetPin 2 [300; 600; 900]; ESetBreakers [[]; []; []]; EBalance; EQuery].
+Definition ex_second_partial : list eop :=   (* battery input at the balancing step 0 deliberately stale *)
+  [ESetStatus 0 [true; true]; ESetLsm 0 [0; 0]; ESetStatus 1 [true; true]; ESetLsm 1 [0; 1];
+   ESetPin 2 [600; 700]; ESetBreakers [[]; []]; EBalance].
+Example C12_machine_example :
+  match erun ex_conv ex_s0 (ex_first ++ [ESetPin 1 [12345; -50]] ++ ex_second_partial),
+        erun ex_conv ex_s0 ([ESetPin 1 [0; -50]] ++ ex_second_partial) with
+  | Some a, Some b =>
+      map (fun o => (map (fun x => match x with Fin q => Some (Qred q) | NonFinite => None end) (fst o),
+                     map (fun x => match x with Fin q => Some (Qred q) | NonFinite => None end) (snd o))) (eobs a)
+      = map (fun o => (map (fun x => match x with Fin q => Some (Qred q) | NonFinite => None end) (fst o),
+                       map (fun x => match x with Fin q => Some (Qred q) | NonFinite => None end) (snd o))) (eobs b)
+      /\ map snd (eobs a) <> [[]; []; []]
+  | _, _ => False
+  end.
+Proof. vm_compute. split; [reflexivity|discriminate]. Qed.
+
 Print Assumptions C12_history_free.
 Print Assumptions C12_repeatable.
 Print Assumptions C12_queries_read_only.
 Print Assumptions C12_balance_keeps_inputs.
+Print Assumptions C12_electric_reads_only.
+Print Assumptions C12_electric_history_free.
+Print Assumptions C12_stale_balancing_input_masked.
+Print Assumptions C12_electric_repeatable.
+Print Assumptions C12_shaft_repeatable.
+Print Assumptions C12_shaft_reads_only.
+Print Assumptions C12_shaft_history_free.
